@@ -90,6 +90,7 @@ def cases(tier, seed):
     yield dict(kind="splinecv_sched", dampings=[1e2, 1e-1], cv="kfold2", bound=0)
     yield dict(kind="splinecv_sched", dampings=[1e2, 1e-4], cv="kfold2", bound=1)
     if tier == "thorough":
+        yield dict(kind="splinecv_sched", dampings=[1e-4, 1e2], cv="kfold2", bound=1, lines=True)
         yield dict(kind="splinecv_sched", dampings=[1e-1, 1e-4], cv="kfold2", bound=2)
         yield dict(kind="splinecv_sched", dampings=[1e-4, 1e-1, 1e2], cv="kfold2", bound=0)
 
@@ -502,7 +503,11 @@ def run(case, rec):
         import verde.spline as vsp
 
         def run_sched(prefix):
-            b = S.Baton(prefix)
+            if case.get("lines"):
+                b = S.Baton(prefix, trace_files=("verde/model_selection.py", "verde/base/utils.py", "verde/base/base_classes.py"),
+                            trace_funcs=("fit_score", "score_estimator", "score", "get_scorer"))
+            else:
+                b = S.Baton(prefix)
             cvest = make(True)
             orig = vsp.Spline
             if orig not in _ICACHE:
